@@ -136,8 +136,8 @@ theorem C14_registry_frame (sys : Sys) (r : Req)
   | deleteTopic n => simp only [Sys.rpc]; (repeat' split) <;> rfl
   | listTopics p s t => simp only [Sys.rpc]; (repeat' split) <;> rfl
   | listTopicSubs p s t => simp only [Sys.rpc]; (repeat' split) <;> rfl
-  | getSub n => simp only [Sys.rpc]; (repeat' split) <;> rfl
-  | listSubs p s t => simp only [Sys.rpc]; (repeat' split) <;> rfl
+  | getSub n => simp only [Sys.rpc]; (repeat' split) <;> first | rfl | (apply skel_registry; simp)
+  | listSubs p s t => simp only [Sys.rpc]; (repeat' split) <;> first | rfl | (apply skel_registry; simp)
   | unimplemented => rfl
 
 /-- CreateSubscription registers exactly the configured (trimmed) endpoint, only for a push
